@@ -139,6 +139,14 @@ impl FormatTime for SystemTime {
     }
 }
 
+/// Verification hook (cargo feature `verif-hooks`, off by default): formats a
+/// caller-supplied instant with exactly the code path of
+/// `<SystemTime as FormatTime>::format_time`.
+#[cfg(feature = "verif-hooks")]
+pub fn verif_format_system_time(t: std::time::SystemTime, w: &mut dyn fmt::Write) -> fmt::Result {
+    write!(w, "{}", datetime::DateTime::from(t))
+}
+
 impl FormatTime for Uptime {
     fn format_time(&self, w: &mut Writer<'_>) -> fmt::Result {
         let e = self.epoch.elapsed();
